@@ -2,9 +2,9 @@ package main
 
 import (
 	"fmt"
-	"os"
 	"go/token"
 	"go/types"
+	"os"
 	"sort"
 	"strings"
 
@@ -30,7 +30,7 @@ type OObj struct {
 	fn    *ssa.Function // allocating function
 	pos   token.Pos
 	blob  bool
-	strct bool // an Alloc/New of struct type: has field keys
+	strct bool       // an Alloc/New of struct type: has field keys
 	typ   types.Type // element type of an Alloc
 }
 
